@@ -87,6 +87,12 @@ impl MutableItem {
     ) -> Result<Self, MutableError> {
         let key = VerifyingKey::try_from(key).map_err(|_| MutableError::InvalidMutablePublicKey)?;
 
+        // The target must be the hash of the public key and the salt, otherwise any validly
+        // signed item could be stored at, or returned for, an unrelated target.
+        if target != MutableItem::target_from_key(key.as_bytes(), salt.as_deref()) {
+            return Err(MutableError::InvalidMutableTarget);
+        }
+
         let signature =
             Signature::from_slice(signature).map_err(|_| MutableError::InvalidMutableSignature)?;
 
@@ -161,6 +167,10 @@ pub enum MutableError {
     #[error("Invalid mutable item public key")]
     /// Invalid mutable item public key
     InvalidMutablePublicKey,
+
+    #[error("Mutable item target is not the hash of its public key and salt")]
+    /// Mutable item target is not the hash of its public key and salt
+    InvalidMutableTarget,
 }
 
 impl PutMutableRequestArguments {
